@@ -24,14 +24,15 @@ REQUIRED = {
               "class/fcn_normal_margin": 300, "class/mm_base_from_quotes": 200, "class/mm_base_from_market_price": 100,
               "class/arb_inside_threshold": 150, "class/arb_gap_equals_threshold": 25, "class/arb_outside_threshold_index_cheap": 55,
               "class/arb_outside_threshold_index_rich": 55, "class/arb_near_threshold": 100,
-              "orders_checked_wellformed": 3000, "class/share_choice_checked": 300},
+              "orders_checked_wellformed": 3000, "class/share_choice_checked": 300,
+              "class/mm_handed_only_part_of_the_markets": 300},
     "thorough": {"evaluations/FCNAgent": 60000, "evaluations/MarketShareFCNAgent": 15000,
                  "evaluations/MarketMakerAgent": 24000, "evaluations/ArbitrageAgent": 12000, "class/fcn_buy": 12000,
                  "class/fcn_sell": 12000, "class/fcn_normal_margin": 9000, "class/mm_base_from_quotes": 6000,
                  "class/mm_base_from_market_price": 3000, "class/arb_inside_threshold": 4500,
                  "class/arb_gap_equals_threshold": 700, "class/arb_outside_threshold_index_cheap": 2400, "class/arb_outside_threshold_index_rich": 2400,
                  "class/arb_near_threshold": 3000, "orders_checked_wellformed": 90000,
-                 "class/share_choice_checked": 9000},
+                 "class/share_choice_checked": 9000, "class/mm_handed_only_part_of_the_markets": 9000},
 }
 
 
@@ -462,14 +463,30 @@ def eval_mm(res, world, rng):
                 world.quote(m2, None, ba - rng.randint(1, 2) * t_)
             res.count("class/mm_asked_again_in_the_same_step_after_quotes_moved")
             _mm_consult(res, world, a, target, acc, theta, otl, st, "second-in-step")
+    if len(world.markets) >= 2:
+        others = [m for m in world.markets if m is not target]
+        sub = [target] + [m for m in others if hash((m.market_id, target.get_time())) % 2 == 0][: len(others) - 1]
+        order_ = sub if target.get_time() % 2 == 0 else sub[::-1]
+        res.count("class/mm_handed_only_part_of_the_markets")
+        _mm_consult(res, world, a, target, acc, theta, otl, st, "handed-a-sublist", offered=order_)
 
 
-def _mm_consult(res, world, a, target, acc, theta, otl, st, which):
+def _mm_consult(res, world, a, target, acc, theta, otl, st, which, offered=None):
     from pams.order import LIMIT_ORDER
 
     wit = {"class": "MarketMakerAgent", "settings": st, "accessible": acc, "time": target.get_time(), "consultation": which}
+    all_markets = world.markets
+    if offered is not None:
+        # the agent is handed only part of the markets (a user runner, or a subclass that narrows the list before
+        # delegating): its base price is the one of the markets it was handed
+        wit["offered"] = [m.market_id for m in offered]
+
+        class _W:
+            markets = offered
+
+        world = _W
     try:
-        orders = a.submit_orders(markets=world.markets)
+        orders = a.submit_orders(markets=list(world.markets))
     except Exception as e:  # noqa
         res.violation("mm", "built-in-agent-raised-on-admissible-state", dict(wit, exc=repr(e)))
         return False
